@@ -87,12 +87,36 @@ func main() {
 				}
 				w := bufio.NewWriterSize(f, 1<<20)
 				rng := rand.New(rand.NewSource(seed*1000003 + int64(sh)))
-				g(tier, rng, sh, nshards, func(op string) {
+				// generate first, then execute with a worker pool (client/server ops sleep and wait on timers)
+				var ops []string
+				g(tier, rng, sh, nshards, func(op string) { ops = append(ops, op) })
+				results := make([]string, len(ops))
+				workers := 1
+				if len(ops) > 0 && (strings.HasPrefix(ops[0], "do ") || strings.HasPrefix(ops[0], "asm ") || strings.HasPrefix(ops[0], "srv ") || strings.HasPrefix(ops[0], "conc ")) {
+					workers = 24
+				}
+				var pw sync.WaitGroup
+				next := make(chan int, 1024)
+				for k := 0; k < workers; k++ {
+					pw.Add(1)
+					go func() {
+						defer pw.Done()
+						for i := range next {
+							results[i] = execOp(ops[i])
+						}
+					}()
+				}
+				for i := range ops {
+					next <- i
+				}
+				close(next)
+				pw.Wait()
+				for i, op := range ops {
 					w.WriteString(op)
 					w.WriteByte('\t')
-					w.WriteString(execOp(op))
+					w.WriteString(results[i])
 					w.WriteByte('\n')
-				})
+				}
 				w.Flush()
 				f.Close()
 			}(sh)
